@@ -338,10 +338,10 @@ func stepSign(s c2signer) []interface{} { return []interface{}{"sign", s.name, s
 func stepSet(path []string, v interface{}) []interface{} {
 	return []interface{}{"set", c2strs(path...), c2clone(v)}
 }
-func stepDel(path []string) []interface{}      { return []interface{}{"del", c2strs(path...)} }
-func stepCopy(a, b []string) []interface{}     { return []interface{}{"copy", c2strs(a...), c2strs(b...)} }
+func stepDel(path []string) []interface{}           { return []interface{}{"del", c2strs(path...)} }
+func stepCopy(a, b []string) []interface{}          { return []interface{}{"copy", c2strs(a...), c2strs(b...)} }
 func stepSigop(s c2signer, op string) []interface{} { return []interface{}{"sigop", s.name, s.kid, op} }
-func stepRepr() []interface{}                  { return []interface{}{"repr"} }
+func stepRepr() []interface{}                       { return []interface{}{"repr"} }
 
 var c2mutCount int
 
